@@ -181,6 +181,10 @@ func (b *bitstream) Next() error {
 
 	// Found the end of the file.
 	if c == -1 {
+		if !b.stack.empty() {
+			// The input ends before the end of the container we're in.
+			return &UnexpectedEOFError{b.pos - 1}
+		}
 		b.code = bitcodeEOF
 		return nil
 	}
@@ -1137,7 +1141,8 @@ func (b *bitstream) skip(n uint64) error {
 	b.pos += uint64(actual)
 
 	if err == io.EOF {
-		return nil
+		// The bytes we were told to skip are not all there.
+		return &UnexpectedEOFError{b.pos}
 	}
 	if err != nil {
 		return &IOError{err}
